@@ -187,10 +187,19 @@ def tlc_model(spec_name, cfg_name, tag, workers=8, timeout=3600, extra=None, hea
         res["error"] = tail_interesting(out, 40)
     res["replay"] = [json.loads(x.encode().decode("unicode_escape")) for x in
                      re.findall(r'<<"REPLAY", "(.*)">>', out)]
-    # action coverage: lines like  <Action line ..>: 12:34
+    # action coverage: `<Action line ..>: distinct:total`, or for disjuncts of a wrapped next-state
+    # relation `<Next line .. (l1 c1 l2 c2)>: distinct:total` -- then the name is read from line l1
     cov = {}
-    for m in re.finditer(r"^<(\w+) line \d+, col \d+ to line \d+, col \d+ of module (\w+)>: (\d+):(\d+)", out, re.M):
-        cov[m.group(1)] = cov.get(m.group(1), 0) + int(m.group(4))
+    spec_lines = open(spec).read().splitlines()
+    for m in re.finditer(r"^<(\w+) line \d+, col \d+ to line \d+, col \d+ of module (\w+)(?: \((\d+) \d+ \d+ \d+\))?>: (\d+):(\d+)", out, re.M):
+        name = m.group(1)
+        if m.group(3):
+            line = spec_lines[int(m.group(3)) - 1] if int(m.group(3)) <= len(spec_lines) else ""
+            mm = re.search(r"\\/\s*(?:\\E[^:]*:\s*)?/?\\?\s*(\w+)", line)
+            mm = re.search(r"(Begin\w+|Commit_\w+|Compact_\w+|Close_\w+|Drop|ProcessCrash|PowerLoss|Open|[A-Z]\w+)", line.split("\\/", 1)[-1]) if "\\/" in line else None
+            if mm:
+                name = mm.group(1)
+        cov[name] = max(cov.get(name, 0), int(m.group(5)))
     res["coverage"] = cov
     return res
 
